@@ -11,6 +11,6 @@ if ! git -C "$wt" apply "$d/patch.diff"; then echo "patch does not apply"; git -
 (cd "$wt" && PYTHONPATH="$wt/src" /venv/bin/python -m pytest -q -p no:cacheprovider 2>&1 | tail -1 | sed 's/\x1b\[[0-9;]*m//g')
 (cd "$d" && PYTHONPATH="$wt/src" /venv/bin/python demo.py >/tmp/sc/demo.$$ 2>&1; echo "demo-seeded exit=$?")
 for p in "$@"; do
-  (cd /verif && PYTHONPATH="$wt/src" VERIF_PYGQL_SRC="$wt/src" VERIF_EVIDENCE_DIR="/tmp/sc/ev.$$" bin/check "$p" --tier "${TIER:-quick}" 2>&1 | grep -E "^(violation-bucket|HARNESS|C[0-9]+ tier)" | cut -c1-250 | head -6)
+  (cd /verif && PYTHONPATH="$wt/src" VERIF_PYGQL_SRC="$wt/src" VERIF_EVIDENCE_DIR="/tmp/sc/ev.$$" VERIF_FAILURES_DIR="/tmp/sc/fail.$$" bin/check "$p" --tier "${TIER:-quick}" 2>&1 | grep -E "^(violation-bucket|HARNESS|C[0-9]+ tier)" | cut -c1-250 | head -6)
 done
-git -C /repo worktree remove --force "$wt"; rm -rf "/tmp/sc/ev.$$" "/tmp/sc/demo.$$"
+git -C /repo worktree remove --force "$wt"; rm -rf "/tmp/sc/ev.$$" "/tmp/sc/fail.$$" "/tmp/sc/demo.$$"
